@@ -2411,3 +2411,148 @@ func RLmAlt(c *core.Ctx) {
 		c.Anchor("a loop over RequiredLandmark.Alternatives in package regexp2")
 	}
 }
+
+// R-RANGEPEND: an arm of the class scanner that ends the iteration early has dealt with a pending range.
+func RRangePend(c *core.Ctx) {
+	c.Rule("R-RANGEPEND", "in scanCharSet every `continue` of the member loop is reached only after the pending-range flag was looked at on that iteration (tested in an enclosing condition or in the statements of the arm before the continue, or reset): an arm that adds its own member and moves on while a range start is pending leaves `x-` open, and the NEXT member silently becomes the range end", 5)
+	p := c.P
+	syn := p.Pkg("syntax")
+	if syn == nil {
+		c.Anchor("package syntax")
+		return
+	}
+	info := syn.TypesInfo
+	fd, _ := p.DeclOf(p.LookupFunc("syntax", "parser.scanCharSet"))
+	if fd == nil {
+		c.Anchor("syntax.parser.scanCharSet")
+		return
+	}
+	c.Visit("syntax.(*parser).scanCharSet")
+	// the flag: a bool local assigned `true` next to `chPrev = ch`-like statement; identify by name-independent shape:
+	// the bool variable that is set to true in a block that also assigns another local from the loop's character
+	var flag types.Object
+	ast.Inspect(fd.Body, func(x ast.Node) bool {
+		bs, ok := x.(*ast.BlockStmt)
+		if !ok || flag != nil {
+			return true
+		}
+		var setTrue types.Object
+		copies := false
+		for _, st := range bs.List {
+			as, ok := st.(*ast.AssignStmt)
+			if !ok || len(as.Lhs) != 1 || len(as.Rhs) != 1 {
+				continue
+			}
+			id, ok := as.Lhs[0].(*ast.Ident)
+			if !ok {
+				continue
+			}
+			if tv, ok := info.Types[as.Rhs[0]]; ok && tv.Value != nil && tv.Value.String() == "true" {
+				setTrue = info.ObjectOf(id)
+			} else if _, ok := as.Rhs[0].(*ast.Ident); ok {
+				if b, ok := info.TypeOf(as.Lhs[0]).Underlying().(*types.Basic); ok && b.Kind() == types.Int32 {
+					copies = true
+				}
+			}
+		}
+		if setTrue != nil && copies {
+			flag = setTrue
+		}
+		return true
+	})
+	if flag == nil {
+		c.Anchor("the pending-range flag of scanCharSet (set to true next to `chPrev = ch`)")
+		return
+	}
+	mentions := func(n ast.Node) bool {
+		found := false
+		ast.Inspect(n, func(y ast.Node) bool {
+			if id, ok := y.(*ast.Ident); ok && info.ObjectOf(id) == flag {
+				found = true
+			}
+			return !found
+		})
+		return found
+	}
+	// the member loop: the outermost for statement of the function
+	var loop *ast.ForStmt
+	ast.Inspect(fd.Body, func(x ast.Node) bool {
+		if fs, ok := x.(*ast.ForStmt); ok && loop == nil {
+			loop = fs
+			return false
+		}
+		return true
+	})
+	if loop == nil {
+		c.Anchor("the member loop of scanCharSet")
+		return
+	}
+	var stack []ast.Node
+	n := 0
+	ast.Inspect(loop.Body, func(x ast.Node) bool {
+		if x == nil {
+			stack = stack[:len(stack)-1]
+			return true
+		}
+		stack = append(stack, x)
+		br, ok := x.(*ast.BranchStmt)
+		if !ok || br.Tok != token.CONTINUE {
+			return true
+		}
+		// inner loops' continues belong to them
+		for i := len(stack) - 2; i >= 0; i-- {
+			if _, inner := stack[i].(*ast.ForStmt); inner {
+				return true
+			}
+			if _, inner := stack[i].(*ast.RangeStmt); inner {
+				return true
+			}
+		}
+		n++
+		seen := false
+		for i := len(stack) - 2; i >= 0 && !seen; i-- {
+			child := stack[i+1]
+			switch a := stack[i].(type) {
+			case *ast.IfStmt:
+				if child != ast.Node(a.Cond) && mentions(a.Cond) {
+					seen = true
+				}
+			case *ast.BlockStmt:
+				if i > 0 {
+					if _, isSwitch := stack[i-1].(*ast.SwitchStmt); isSwitch {
+						break // the other arms of a switch are not "before" this one
+					}
+				}
+				for _, st := range a.List {
+					if st == child {
+						break
+					}
+					if st.End() <= child.Pos() && mentions(st) {
+						seen = true
+					}
+				}
+			case *ast.CaseClause:
+				for _, st := range a.Body {
+					if st == child {
+						break
+					}
+					if st.End() <= child.Pos() && mentions(st) {
+						seen = true
+					}
+				}
+			}
+		}
+		label := "?"
+		for i := len(stack) - 2; i >= 0; i-- {
+			if cc, ok := stack[i].(*ast.CaseClause); ok && len(cc.List) > 0 {
+				label = types.ExprString(cc.List[0])
+				break
+			}
+		}
+		c.Check(seen, fmt.Sprintf("scanCharSet / continue #%d (arm %s) comes after the pending-range flag was consulted", n, label), br.Pos(), "this arm ends the iteration without looking at the pending-range flag: after `x-` its member is added on its own and the range stays open")
+		return true
+	})
+	if n == 0 {
+		c.Anchor("continue statements in the member loop of scanCharSet")
+	}
+}
